@@ -362,6 +362,7 @@ pub fn replay(doc: &Value) -> i32 {
 
 pub fn main(env: &Env) -> i32 {
     let mut rep = Report::new("C10", "exploration", env);
+    rep.expected_probes = vec!["event.deploy_writer", "event.deploy_reader", "event.write", "event.read", "read.same_release_or_already_compared", "other_release_accepted", "queries_with_nonempty_answer", "pair.writer=pinned-5.5.0.reader=current-tree", "pair.writer=current-tree.reader=pinned-5.5.0"];
     rep.real.push("proguard_pinned: byte-for-byte copy of the pinned release's sources (f3fcb84), real code".into());
     rep.stubs = vec!["simulated deployment: blob store + writer/reader roles whose release is switched by deploy/rollback events".into()];
     rep.assumptions = vec![
